@@ -14,6 +14,7 @@ import AcnProofs.Lemmas.EventCoreRun
 import AcnProofs.Lemmas.EventCoreSim
 import AcnProofs.Lemmas.EventCoreQueue
 import AcnProofs.Lemmas.EventCoreNet
+import AcnProofs.Lemmas.EventCoreSimQ
 
 namespace Acn.C01
 open Acn Acn.EventCore
@@ -480,6 +481,27 @@ theorem sim_run_C01 (cfg : Sim.Cfg K) (sched : Sim.View K → Except Err (Sim.Sc
   subst hc
   exact ⟨hp, hi, all_vacant_at_end hI, fun x hx => ⟨plugged_once hv hI x hx, unplugged_once hv hI x hx⟩,
     history_sorted hI⟩
+
+/-- C01 for the full model over CPython's array heap (`Sim.runQ heapQ`) — this is what the C01
+    driver executes and what the correspondence compares with the real `Simulator`, tie order
+    included -/
+theorem sim_runQ_heap_C01 (cfg : Sim.Cfg K) (sched : Sim.View K → Except Err (Sim.Schedule K))
+    (hv : Valid cfg.core) (n : Nat) (hn : horizon cfg.core ≤ n)
+    (h : (Sim.runQ heapQ cfg sched n (Sim.initQ heapQ cfg)).2 = none) :
+    let c := (Sim.runQ heapQ cfg sched n (Sim.initQ heapQ cfg)).1.core
+    c.pending = [] ∧ c.iter = horizon cfg.core ∧ (∀ st, c.occ st = none) ∧
+    (∀ x ∈ cfg.core.sessions,
+      c.eventHist.filter (fun e => e.kind == .plugin && e.sess == x.id) = [plugEv x] ∧
+      c.eventHist.filter (fun e => e.kind == .unplug && e.sess == x.id) = [unplugEv x]) ∧
+    c.eventHist.Pairwise (fun a b => a.keyLe b = true) := by
+  intro c
+  have hproj := Sim.runQ_core heapQ cfg sched n (Sim.initQ heapQ cfg) h
+  obtain ⟨c', hr, hp, hi, hvac, honce, hsorted⟩ := run_terminates_real_heap hv (sched := noFail) (apply := noFail)
+    (fun _ => rfl) (fun _ => rfl) n hn
+  rw [Sim.initQ_core, hr] at hproj
+  have hc : c' = c := congrArg Prod.fst hproj
+  subst hc
+  exact ⟨hp, hi, hvac, honce, hsorted⟩
 
 end sim
 
